@@ -4,4 +4,5 @@ VIEW view
 CHECK_DEADLOCK FALSE
 INVARIANT BoundedInstant
 INVARIANT SampleHist
+INVARIANT RetryProtocol
 PROPERTY ObserversHold
